@@ -35,6 +35,9 @@ THEOREMS = [
     "SqlglotModel.Properties.C10.default_qualifier_needs_tag_first",
     "SqlglotModel.Properties.C10.normalizeT_base",
     "SqlglotModel.Properties.C10.normalizeT_table_sensitive",
+    "SqlglotModel.Properties.C10.schema_name_memo_sound",
+    "SqlglotModel.Properties.C10.generated_schema_memo_key_ok",
+    "SqlglotModel.Properties.C10.schema_name_memo_without_role_witness",
     "SqlglotModel.Properties.C10.cte_sibling_independence",
     "SqlglotModel.Properties.C10.generated_cte_scoping_ok",
     "SqlglotModel.Properties.C10.cte_shared_dict_leak_witness",
@@ -200,6 +203,28 @@ def default_qualifier_tag_first(chk: Check) -> bool:
     return all(verdicts)
 
 
+def schema_memo_key(chk: Check) -> list:
+    """ast of MappingSchema._normalize_name: the names in the `cache_key = (...)` tuple that indexes _normalized_name_cache"""
+    src = open(os.path.join(REPO, "sqlglot", "schema.py"), encoding="utf-8").read()
+    tree = ast.parse(src)
+    key = None
+    for cls in [n for n in tree.body if isinstance(n, ast.ClassDef) and n.name == "MappingSchema"]:
+        for fn in [n for n in cls.body if isinstance(n, ast.FunctionDef) and n.name == "_normalize_name"]:
+            params = {a.arg for a in fn.args.args}
+            for n in ast.walk(fn):
+                if isinstance(n, ast.Assign) and len(n.targets) == 1 and isinstance(n.targets[0], ast.Name) \
+                        and n.targets[0].id == "cache_key" and isinstance(n.value, ast.Tuple):
+                    if all(isinstance(e, ast.Name) for e in n.value.elts):
+                        key = [e.id for e in n.value.elts]
+            uses = any(isinstance(n, ast.Attribute) and n.attr == "_normalized_name_cache" for n in ast.walk(fn))
+            if key is not None and not uses:
+                key = None
+    if key is None:
+        chk.broken.append({"kind": "translator", "what": "structure changed: MappingSchema._normalize_name cache_key tuple not recognised"})
+        return []
+    return key
+
+
 def join_context_definition_order(chk: Check) -> bool:
     """ast of Resolver._get_available_source_columns: which mapping / ordering the available sources are taken from"""
     src = open(os.path.join(REPO, "sqlglot", "optimizer", "resolver.py"), encoding="utf-8").read()
@@ -310,6 +335,10 @@ def translate(chk: Check) -> str:
     L.append(f"def branchCopiesCteSources : Bool := {lean_bool(copies)}")
     L.append("/-- scope.py: does _traverse_ctes add a scope's own WITH definitions to its mapping in place (.update)? -/")
     L.append(f"def traverseCtesUpdatesInPlace : Bool := {lean_bool(in_place)}")
+    mk = schema_memo_key(chk)
+    chk.cov["schema_name_memo_key"] = mk
+    L.append("/-- schema.py: the elements of MappingSchema._normalize_name's memo key tuple, in order -/")
+    L.append(f"def schemaNameMemoKey : List String := {lean_list(lean_str(x) for x in mk)}")
     jc = join_context_definition_order(chk)
     chk.cov["join_context_definition_order"] = jc
     L.append("/-- resolver.py: does _get_available_source_columns collect the FROM source and the joins up to the current one")
@@ -1771,6 +1800,115 @@ def gen_join_star_case(rng, dialect):
     return "SELECT " + ", ".join(projs) + " FROM " + "".join(parts), schema
 
 
+def role_sensitive_dialects():
+    """dialects whose normalize_identifier depends on the identifier's ROLE (found by probing: a table-tagged and a plain
+    identifier of the same mixed-case spelling normalise differently)"""
+    _, exp, Dialect, Dialects, *_ = sg()
+    out = []
+    for d in Dialects:
+        dd = Dialect.get_or_raise(d.value or None)
+        a = exp.Identifier(this="TbL", quoted=False)
+        a.meta["is_table"] = True
+        b = exp.Identifier(this="TbL", quoted=False)
+        exp.Column(this=b)
+        if dd.normalize_identifier(a).this != dd.normalize_identifier(b).this:
+            out.append(d.value or None)
+    return out
+
+
+def gen_role_collision_case(rng, dialect):
+    """a schema whose COLUMN names coincide (same mixed-case spelling) with its table / db / catalog keys"""
+    g = Gen(rng, dialect, False)
+    depth = rng.choice([1, 2, 2, 3])
+    names = rng.sample(["Tbl", "Ds", "Cat", "Orders", "MyT"], 3)
+    tname, dname, cname = names
+    cols = [tname] + rng.sample([dname, cname, "x", "Yy", "k"], rng.choice([1, 2, 3]))
+    rng.shuffle(cols)
+    q = rng.random() < 0.2
+    body = {g.isql(c, q): "INT" for c in cols}
+    path = [cname, dname, tname][3 - depth:]
+    schema = body
+    for p in reversed(path):
+        schema = {g.isql(p, q): schema}
+    tref = ".".join(g.isql(p, q) for p in path)
+    al = rng.choice([None, "t1"])
+    r = rng.random()
+    if r < 0.4:
+        proj = "*"
+    elif r < 0.7:
+        proj = ", ".join(g.isql(c, q) for c in rng.sample(cols, rng.randint(1, len(cols))))
+    else:
+        proj = (al or g.isql(tname, q)) + "." + g.isql(rng.choice(cols), q)
+    sql = f"SELECT {proj} FROM {tref}" + (f" AS {al}" if al else "")
+    if rng.random() < 0.3:
+        sql += f" WHERE {g.isql(rng.choice(cols), q)} > 1"
+    return sql, schema
+
+
+def schema_fidelity_oracle(schema, dialect):
+    """every key of MappingSchema(schema, dialect).mapping is the dialect's normalisation of the key as written, in ITS role:
+    table / db / catalog parts as table parts, column names as columns (each normalised on a fresh identifier)"""
+    _, exp, Dialect, Dialects, OptimizeError, qualify, MappingSchema = sg()
+    dd = Dialect.get_or_raise(dialect)
+    try:
+        ms = MappingSchema(schema, dialect=dialect)
+    except Exception as e:  # noqa
+        return None
+    depth = ms.depth()
+
+    def norm(text, is_table):
+        i = exp.parse_identifier(text, dialect=dialect)
+        if is_table:
+            i.meta["is_table"] = True
+        return dd.normalize_identifier(i).name
+
+    def rec(raw, got, level, path):
+        if level == depth:
+            want = [norm(k, False) for k in raw]
+            if list(got.keys()) != want:
+                return ("schema-column-not-normalised-in-its-role",
+                        f"columns of {'.'.join(path)} are stored as {list(got.keys())}; normalising each as a COLUMN gives {want}")
+            return None
+        for k, v in raw.items():
+            nk = norm(k, True)
+            if nk not in got:
+                return ("schema-table-key-not-normalised-in-its-role", f"table part {k!r} should be stored as {nk!r}; stored keys {list(got.keys())}")
+            r = rec(v, got[nk], level + 1, path + [nk])
+            if r:
+                return r
+        return None
+
+    return rec(schema, ms.mapping, 0, [])
+
+
+def correspond_name_memo(chk: Check):
+    """MappingSchema._normalize_name call histories (fresh schema per history) vs normMemoRun"""
+    _, exp, Dialect, Dialects, OptimizeError, qualify, MappingSchema = sg()
+    rng = chk.rng
+    rows = {r["name"]: r for r in dialect_rows()}
+    lines, expect, meta = [], [], []
+    names = ["Tbl", "tbl", "TBL", "x", "Ds"]
+    for d in Dialects:
+        dname = d.value or None
+        dd = Dialect.get_or_raise(dname)
+        ts = not rows[d.value]["base_normalize"]
+        for _ in range(chk.pick(6, 60)):
+            calls = [[rng.choice(names), rng.random() < 0.25, rng.random() < 0.5] for _ in range(rng.randint(2, 7))]
+            ms = MappingSchema({}, dialect=dname)
+            out = []
+            for nm, quoted, is_table in calls:
+                out.append(ms._normalize_name(exp.Identifier(this=nm, quoted=quoted), is_table=is_table))
+            lines.append(json.dumps({"op": "normmemo", "st": dd.normalization_strategy.value, "ts": ts, "calls": calls}))
+            expect.append("\t".join(out))
+            meta.append((dname, calls))
+    got = chk.driver("C10", lines)
+    chk.corr_cases += len(lines)
+    for g, e, m in zip(got, expect, meta):
+        chk.count("ident:schema-name-memo")
+        if g != e:
+            chk.correspondence_broken("MappingSchema._normalize_name history differs from normMemoRun", {"case": m, "model": g, "impl": e})
+
+
 def gen_join_context_case(rng, dialect):
     """multi-join FROM lists mixing derived tables / plain tables / CTE references in every order; one ON condition uses a
     bare name that is ambiguous over the whole scope but owned by exactly one source among those joined so far"""
@@ -2169,6 +2307,8 @@ def search(chk: Check, hints, budget_s):
     for sql, schema, dialect in WITNESSES + list(hints)[:20]:
         consider(chk, sql, schema, dialect, stats)
     all_d = [d.value or None for d in Dialects]
+    role_d = role_sensitive_dialects()
+    chk.cov["role_sensitive_dialects"] = [str(x) for x in role_d]
     while time.time() - t0 < budget_s:
         dialect = rng.choice(all_d)
         try:
@@ -2222,6 +2362,16 @@ def search(chk: Check, hints, budget_s):
             sql3, schema3 = gen_join_star_case(rng, d3)
             chk.count("search:join-star-template")
             consider(chk, sql3, schema3, d3, stats)
+        if rng.random() < 0.25:
+            # column names spelled like table / db / catalog keys, mostly under role-sensitive dialects
+            d6 = rng.choice(role_d) if role_d and rng.random() < 0.7 else rng.choice(all_d)
+            sql6, schema6 = gen_role_collision_case(rng, d6)
+            chk.count("search:role-collision-template")
+            fr = schema_fidelity_oracle(schema6, d6)
+            if fr:
+                chk.report_violation(fr[0] + "|" + str(d6), fr[1], {"schema_only": True, "sql": sql6, "schema": schema6, "dialect": d6},
+                                     context={"kind": fr[0], "dialect": d6 or ""})
+            consider(chk, sql6, schema6, d6, stats)
         if rng.random() < 0.2:
             d5 = rng.choice(all_d)
             sql5, schema5 = gen_join_context_case(rng, d5)
@@ -2293,6 +2443,7 @@ def run(chk: Check) -> None:
         correspond_idents(chk)
         correspond_table_sensitive(chk)
         correspond_cte_visibility(chk)
+        correspond_name_memo(chk)
         hints = correspond_queries(chk)
     except HarnessError as e:
         if proved:
@@ -2322,6 +2473,10 @@ def replay(path: str) -> int:
         twice = dd.normalize_identifier(exp.Identifier(this=once, quoted=i["quoted"])).this
         print("replay:", i, "->", repr(once), "->", repr(twice))
         return 1
+    if r.get("schema_only"):
+        res = schema_fidelity_oracle(r["schema"], r["dialect"]) or oracle(r["sql"], r["schema"], r["dialect"])
+        print("replay:", "VIOLATES: " + res[0] + ": " + res[1] if res else "holds")
+        return 1 if res else 0
     if "dbdefault" in r:
         res = db_default_oracle(r["sql"], r["schema"], r["dialect"], *r["dbdefault"])
         print("replay:", "VIOLATES: " + res[0] + ": " + res[1] if res else "holds")
